@@ -234,10 +234,13 @@ inline Aggr check_aggregates(const Csr<double> &K, float eps, int b, unsigned mi
 // Tentative prolongation.  P: n x (k>0 ? k*count/b : count).  id/count from the (checked) aggregates.
 // k == 0: one unit entry per aggregated row in column id[i]; constant reproduced on aggregated rows.
 // k  > 0: rows of one block-aggregate a = id/b own columns [a*k,(a+1)*k); P^T P = I; P*Bc = B on aggregated rows.
-struct TentStats { ld max_orth = 0, max_repro = 0; long aggregates = 0; ptrdiff_t max_d = 0; };
+// allow_short: aggregates with fewer rows than null-space vectors (d < k) are legal input of the public function
+// tentative_prolongation(); then Q = [Q_d | 0], R = [R_d; 0]: columns d.. of the aggregate's block of P vanish, P*B_c = B still holds.
+// (the coarsening classes never produce d < k: they pass min_aggregate = nullspace.cols)
+struct TentStats { ld max_orth = 0, max_repro = 0; long aggregates = 0, short_aggregates = 0; ptrdiff_t max_d = 0; };
 
 inline TentStats check_tentative(const Csr<double> &P, const std::vector<ptrdiff_t> &id, size_t count, int b, int k,
-                                 const std::vector<double> &B, const std::vector<double> &Bc, const std::string &what) {
+                                 const std::vector<double> &B, const std::vector<double> &Bc, const std::string &what, bool allow_short = false) {
     TentStats ts;
     ptrdiff_t n = static_cast<ptrdiff_t>(id.size());
     VF_REQUIRE(P.n == n, what << ": P has " << P.n << " rows for " << n << " variables");
@@ -276,7 +279,12 @@ inline TentStats check_tentative(const Csr<double> &P, const std::vector<ptrdiff
     for (ptrdiff_t a = 0; a < nba; ++a) {
         ptrdiff_t d = static_cast<ptrdiff_t>(members[a].size());
         ts.max_d = std::max(ts.max_d, d);
-        VF_REQUIRE(d >= k, what << ": aggregate " << a << " has " << d << " rows, fewer than nullspace.cols=" << k << " (min_aggregate not honoured)");
+        if (!allow_short) VF_REQUIRE(d >= k, what << ": aggregate " << a << " has " << d << " rows, fewer than nullspace.cols=" << k << " (min_aggregate not honoured)");
+        if (d < k) ++ts.short_aggregates;
+        // R is min(d,k) x k: the rows d.. of the k x k coarse block carry no information and must be zero (they are read on the next level)
+        for (ptrdiff_t q = d; q < k; ++q) for (int l = 0; l < k; ++l)
+            VF_REQUIRE(Bc[a * k * k + q * k + l] == 0, what << ": coarse null-space block of aggregate " << a << " (" << d << " rows, " << k << " vectors): row " << q << " col " << l << " = " << Bc[a * k * k + q * k + l] << ", expected 0 (R has only " << d << " rows)");
+        for (int q = 0; q < k * k; ++q) VF_REQUIRE(std::isfinite(Bc[a * k * k + q]), what << ": coarse null-space entry " << q << " of aggregate " << a << " (" << d << " rows, " << k << " vectors) is " << Bc[a * k * k + q]);
         // dense Q (d x k)
         std::vector<ld> Q(d * k, 0);
         for (ptrdiff_t r = 0; r < d; ++r) { ptrdiff_t i = members[a][r]; for (ptrdiff_t j = P.ptr[i]; j < P.ptr[i + 1]; ++j) Q[r * k + (P.col[j] - a * k)] = P.val[j]; }
@@ -284,7 +292,7 @@ inline TentStats check_tentative(const Csr<double> &P, const std::vector<ptrdiff
         ld tol_o = 32 * (d + 4) * k * U;
         for (int p = 0; p < k; ++p) for (int q = p; q < k; ++q) {
             ld s = 0; for (ptrdiff_t r = 0; r < d; ++r) s += Q[r * k + p] * Q[r * k + q];
-            ld e = std::abs(s - (p == q ? 1 : 0));
+            ld e = std::abs(s - (p == q && p < d ? 1 : 0));
             ts.max_orth = std::max(ts.max_orth, e / tol_o);
             VF_REQUIRE(e <= tol_o, what << ": aggregate " << a << " (P^T P)(" << p << "," << q << ") = " << static_cast<double>(s) << ", columns are not orthonormal (err " << static_cast<double>(e) << " > " << static_cast<double>(tol_o) << ")");
         }
